@@ -57,6 +57,29 @@ class Injector:
         self.QRS = QRS
         self.orig = QRS.fit
         inj = self
+        # the weights as they are handed to fit_model (function boundary named in the property's anchors): the un-normalised retry
+        # must solve with exactly these
+        from elexmodel.models.ConformalElectionModel import ConformalElectionModel as CEM
+
+        self.CEM = CEM
+        self.orig_fit_model = CEM.fit_model
+        self.handed = [None]
+
+        def fit_model(model_self, *a, **kw):
+            import inspect
+
+            try:
+                ba = inspect.signature(inj.orig_fit_model).bind(model_self, *a, **kw)
+                w = ba.arguments.get("weights")
+                inj.handed[0] = None if w is None else np.asarray(getattr(w, "values", w), dtype=float).ravel().copy()
+            except TypeError:
+                inj.handed[0] = None
+            try:
+                return inj.orig_fit_model(model_self, *a, **kw)
+            finally:
+                inj.handed[0] = None
+
+        CEM.fit_model = fit_model
 
         def fit(solver, x, y, *a, **kw):
             i = len(inj.calls)
@@ -74,6 +97,8 @@ class Injector:
                 "lambda": g.get("lambda_"), "intercept": g.get("fit_intercept"),
                 "normalize": g.get("normalize_weights", True), "regularize_intercept": g.get("regularize_intercept"),
                 "kwargs": sorted(kw), "positional": len(a),
+                "weights_as_handed": (None if inj.handed[0] is None or g.get("weights") is None else
+                                      bool(np.array_equal(np.asarray(g.get("weights"), dtype=float).ravel(), inj.handed[0]))),
             })
             if i == inj.k:
                 if inj.kind == "solverError":
@@ -100,6 +125,7 @@ class Injector:
 
     def __exit__(self, *exc):
         self.QRS.fit = self.orig
+        self.CEM.fit_model = self.orig_fit_model
 
 
 def run_once(e, req, inj):
@@ -164,6 +190,11 @@ def explore(run, driver, budget):
                     continue
                 a, b = inj.calls[k], inj.calls[k + 1]
                 same = all(np.all(np.asarray(a[f]) == np.asarray(b[f])) for f in ("data", "tau", "lambda", "intercept"))
+                if b["weights_as_handed"] is False:
+                    run.violation("the un-normalised retry does not solve with the weights that were handed to fit_model (it re-uses an "
+                                  "already normalised array)", input=case, impl={"failed": {f: str(a[f]) for f in a}, "retry": {f: str(b[f]) for f in b}},
+                                  predicate="retry_same_args (weights)", signature="C20:weights", election=e.to_json())
+                    continue
                 if not same or b["normalize"] is not False:
                     run.violation("the retry does not use the same quantile, weights, regularisation and intercept setting",
                                   input=case, impl={"failed": {f: str(a[f]) for f in a}, "retry": {f: str(b[f]) for f in b}},
